@@ -531,3 +531,62 @@ def check_finish(chk, prog, cfg, rule="R1.6"):
     except _ai.Unrecognised as e:
         detail = "cannot interpret: %s" % e
     chk.expect(ok, rule, "finish", b.where(), detail, cfg)
+
+
+# -------------------------------------------------------------------------- profile independence / totality (source level)
+PURE_IN_ASSERT = {"is_some", "is_none", "is_ok", "is_err", "len", "is_empty", "contains_key", "contains", "get", "eq", "ne", "as_ref", "iter", "all", "any",
+                  "first", "last", "starts_with", "ends_with", "is_ascii", "as_str", "as_bytes", "deref", "borrow", "cmp", "partial_cmp", "is_phantom", "type_id"}
+
+
+def check_debug_asserts(chk, rule="R1.9"):
+    """debug_assert!/cfg!(debug_assertions) must not decide anything: the analysed MIR is the release-profile one (-Cdebug-assertions=off), so an effect or an
+    evaluation hidden in a debug assertion would make debug and release builds produce different registries (and evaluate type_info a different number of times)"""
+    from ..lib import src as S_
+    import re as _re
+    chk.rule(rule, "profile independence: every debug_assert*! in the library has an effect-free condition (only reads and comparisons: no insert/push/register/"
+             "type_info/... call), and nothing is conditional on cfg(debug_assertions): debug and release builds describe types identically")
+    sf = S_.Src()
+    n = 0
+    bad = 0
+    for f in sf.files("lib"):
+        for m in f.get("macros", []):
+            lastp = m["path"].split("::")[-1]
+            if lastp in ("debug_assert", "debug_assert_eq", "debug_assert_ne"):
+                n += 1
+                calls = set(_re.findall(r"([A-Za-z_][A-Za-z0-9_]*)\s*(?:::\s*<[^()]*>\s*)?\(", m.get("tokens", "")))
+                impure = sorted(c for c in calls if c not in PURE_IN_ASSERT and c not in ("Some", "None", "Ok", "Err"))
+                if impure:
+                    bad += 1
+                    chk.fail(rule, "debug-assert-calls:%s:%s" % (f["file"], ",".join(impure)[:60]), "src/%s:%s" % (f["file"], m["line"]),
+                             "debug_assert condition calls %s: it is compiled out without debug assertions, so whatever these calls do or evaluate happens in debug builds only" % impure, None)
+            if lastp == "cfg" and "debug_assertions" in m.get("tokens", ""):
+                bad += 1
+                chk.fail(rule, "cfg-debug-assertions:%s" % f["file"], "src/%s:%s" % (f["file"], m["line"]), "cfg!(debug_assertions) makes behaviour depend on the build profile", None)
+        for x in f.get("all_cfg", []):
+            a = x["attr"]
+            if "debug_assertions" in S_.pred_str(a["pred"]) if "pred" in a else False:
+                bad += 1
+                chk.fail(rule, "cfg-debug-assertions:%s" % f["file"], "src/%s:%s" % (f["file"], a["line"]), "#[cfg(debug_assertions)] item", None)
+    chk.expect(bad == 0, rule, "debug-assertions:none-effectful", None, "%d debug assertion(s) in the library, %d with effects / profile conditions" % (n, bad), None)
+
+
+def check_total_ops(chk, rule="R12.4"):
+    """the runtime builder's operations are total: no assertion / panic macro in their bodies (a `debug_assert!` there rejects registration orders the
+    documentation allows, e.g. forward references between mutually recursive types)"""
+    from ..lib import src as S_
+    chk.rule(rule, "totality of the runtime builder: register_type / next_type_id / get / finish contain no assert*!, debug_assert*!, panic!, unreachable!, todo!, "
+             "unimplemented! and no unwrap()/expect()")
+    sf = S_.Src()
+    found = 0
+    for f in sf.files("lib"):
+        for it in f["items"]:
+            if it["kind"] == "impl" and it.get("self_ty", it.get("ident", "")).replace(" ", "").startswith("PortableRegistryBuilder"):
+                for ii in it.get("items", []):
+                    if ii.get("kind") == "fn" and ii["ident"] in ("register_type", "next_type_id", "get", "finish") and "body" in ii:
+                        found += 1
+                        macs = [m["path"].split("::")[-1] for m in ii["body"].get("macros", [])]
+                        badm = sorted(x for x in macs if x in ("assert", "assert_eq", "assert_ne", "debug_assert", "debug_assert_eq", "debug_assert_ne", "panic", "unreachable", "todo", "unimplemented"))
+                        badc = sorted(x["m"] for x in ii["body"].get("method_calls", []) if x["m"] in ("unwrap", "expect"))
+                        chk.expect(not badm and not badc, rule, "total:PortableRegistryBuilder::" + ii["ident"], "src/%s:%s" % (f["file"], ii["line"]),
+                                   "assertion / panic constructs: %s" % (badm + badc), None)
+    chk.expect(found >= 4, rule, "total:builder-ops-found", None, "%d builder operations inspected" % found, None)
